@@ -93,6 +93,7 @@ def runtime_exec(rng, big=False):
             for c in (CLS_NEW, CLS_SIZE, CLS_ALLOC):
                 if c is not None: L.append("look tinst %d %d 0" % (t, c))
     L.append("wrappers"); L.append("wrappers")           # (cold, then warm)
+    for k in range(8): L.append("coldimpl %d" % ((k + len(L)) % 8))      # object-level questions about static type objects, each one's first while it is cold
     L.append("halfptr")                                   # Pointer instances with one member only, stored in Refs
     for _ in range(6):
         a, b = rng.randrange(NB), rng.randrange(NB)
